@@ -107,7 +107,7 @@ m = {
     "setup_cmd": "bin/setup",
     "hooks": {"guard": "LNN_VERIF", "enable": "no hooks: the harness imports lnn from /repo's working tree (PYTHONPATH=/repo) and only reads public attributes",
               "baseline_off_cmd": "cd /repo && /venv/bin/python -m pytest -q -p no:cacheprovider --timeout=900 -n 12",
-              "source_commits": ["6592514", "3aabc63", "5319eb9", "c4a5170", "993404a", "4270eca", "f489d34", "17358dd", "1c2eb91", "98dafca", "2efe2b1", "8418802", "3740954"], "add_only": True},
+              "source_commits": ["6592514", "3aabc63", "5319eb9", "c4a5170", "993404a", "4270eca", "f489d34", "17358dd", "1c2eb91", "98dafca", "2efe2b1", "8418802", "3740954", "7da5c2a"], "add_only": True},
     "engines": [{"name": "coq-model", "path": "/verif/coq", "serves_properties": sorted(CLAIMS),
                  "kind_free_text": "hand-written executable Gallina model of LNN over Q + theorems per property (Coq 8.16.1), tied to /repo by generated tables and exact differential correspondence (model extracted to OCaml)"}],
     "checks": checks,
